@@ -4,6 +4,7 @@ mod errm;
 mod gen;
 mod icfg;
 mod work;
+mod refi;
 mod refm;
 mod reg;
 mod rep;
